@@ -161,6 +161,7 @@ class _validate_union:
 @target(VP, "_validate")
 class _validate:
     """dispatcher: NoValue (an absent field without default) stands for None, and is rejected in strict mode"""
+    unfold_here = ["NS_CLEAN"]     # WF(schema, {}) of the fixed / enum validators: NS_CLEAN({})
     types = dict(datum="py", schema="py", named_schemas="dict", field="py", raise_errors="bool", options="dict")
     returns = "bool"
     modifies = []
@@ -254,6 +255,7 @@ class _validate_union_raising:
 @target(VP, "_validate", behavior="raising")
 class _validate_raising:
     """raises ValidationError exactly for data that is not VALID; returns True otherwise"""
+    unfold_here = ["NS_CLEAN"]     # WF(schema, {}) of the fixed / enum validators: NS_CLEAN({})
     types = dict(datum="py", schema="py", named_schemas="dict", field="py", raise_errors="bool", options="dict")
     returns = "bool"
     modifies = []
